@@ -28,16 +28,16 @@ Definition same_gate (o : mgate) (g : SpinChain.ngate) : Prop :=
 Lemma NoDup_app_r {A} (a b : list A) : NoDup (a ++ b) -> NoDup b.
 Proof. induction a as [|x a IH]; [auto|]. cbn. intros H. inversion H; subst. auto. Qed.
 
-Lemma out_ok_wf_pulse d N (cc : SpinChain.cfg) o g : SpinChain.c_n cc = N -> out_ok d N o -> same_gate o g ->
+Lemma out_ok_wf_pulse d N M (cc : SpinChain.cfg) o g : SpinChain.c_n cc = N -> M <= N -> out_ok d N M o -> same_gate o g ->
   SpinChainSem.is_pulse_gate g = true -> SpinChainSem.wf_pulse_gate cc g.
 Proof.
-  intros HN [_ [_ [Hr [Hnd Hk]]]] [En Et] Hp.
+  intros HN HM [_ [_ [Hr [Hnd Hk]]]] [En Et] Hp.
   pose proof (SpinChainSem.is_pulse_gate_in g Hp) as Hin.
   pose proof pulse_table_ok_true as T. unfold pulse_table_ok in T. rewrite forallb_forall in T. specialize (T _ Hin).
   unfold SpinChainSem.wf_pulse_gate. rewrite Et, HN. split; [exact Hin|].
   apply in_range_iff in Hr. unfold qubits in *.
   split; [exact (NoDup_app_r _ _ Hnd)|]. split.
-  - rewrite Forall_forall in *. intros t Ht. apply Hr. apply in_or_app. right. exact Ht.
+  - rewrite Forall_forall in *. intros t Ht. apply Nat.lt_le_trans with M; [|exact HM]. apply Hr. apply in_or_app. right. exact Ht.
   - rewrite En in T |- *. destruct (SpinChainCal.gate_cal (gname o)) as [[[k s] a]|]; [|discriminate].
     unfold kindshape in Hk. destruct (Route.is_swapk (gname o)) eqn:Es.
     + apply andb_prop in T. destruct T as [T1 T2]. apply negb_true_iff in T2. rewrite T2 in Hk.
@@ -47,15 +47,21 @@ Proof.
       rewrite T2, T1 in Hk. apply andb_prop in Hk. destruct Hk as [_ H2]. apply Nat.eqb_eq in H2. apply Nat.eqb_eq in T3. congruence.
 Qed.
 
-Theorem transpile_wf_circuit_proof d N c out (cc : SpinChain.cfg) (gs : list SpinChain.ngate) :
-  In d devices -> Forall wf_gate c -> Forall (fun g => in_range N g = true) c -> transpile d N c = Ok out ->
+Theorem transpile_wf_circuit_on_proof d N M c out (cc : SpinChain.cfg) (gs : list SpinChain.ngate) :
+  In d devices -> Forall wf_gate c -> Forall (fun g => in_range M g = true) c -> transpile_on d N M c = Ok out ->
   SpinChain.c_n cc = N -> Forall2 same_gate out gs -> SpinChainSem.wf_circuit cc gs.
 Proof.
   intros Hd Hw Hr H HN H2.
   assert (HPc : Forall (fun g => (fun _ : string => True) (gname g)) c) by (apply Forall_forall; intros; exact I).
-  pose proof (transpile_structure (fun _ => True) d N c out Hd I Hw HPc Hr H) as Ho.
+  destruct (transpile_structure (fun _ => True) d N M c out Hd I Hw HPc Hr H) as [HM Ho].
   clear H. unfold SpinChainSem.wf_circuit. induction H2 as [|o g out gs Hs _ IH]; [constructor|].
   inversion Ho as [|? ? Ho1 Ho2]; subst. constructor; [|exact (IH Ho2)].
   destruct (SpinChainSem.is_pulse_gate g) eqn:Ep; [|exact I].
-  exact (out_ok_wf_pulse d _ cc o g eq_refl Ho1 Hs Ep).
+  exact (out_ok_wf_pulse d _ M cc o g eq_refl HM Ho1 Hs Ep).
 Qed.
+
+(* the circuit as wide as the chain (the form used by Proofs/SpinChainC13.v) *)
+Theorem transpile_wf_circuit_proof d N c out (cc : SpinChain.cfg) (gs : list SpinChain.ngate) :
+  In d devices -> Forall wf_gate c -> Forall (fun g => in_range N g = true) c -> transpile d N c = Ok out ->
+  SpinChain.c_n cc = N -> Forall2 same_gate out gs -> SpinChainSem.wf_circuit cc gs.
+Proof. unfold transpile. apply transpile_wf_circuit_on_proof. Qed.
